@@ -1,5 +1,5 @@
 CONSTANTS
-  Enabled = {"R1", "R2", "R2x", "S1", "S1x", "S2", "M1", "S3"}
+  Enabled = {"R1", "R2", "R2x", "S1", "S1x", "S2", "M1", "S3", "S4"}
   MaxBlocks = 6
   MaxBulk = 1
   MaxSteps = 18
